@@ -204,8 +204,10 @@ def build_random_model(rng, nl, scale=1.0, spec=None):
             # smooth dependence on pressure so every layer has its own exact value
             return (10.0 ** spec['mag'][idx]) * scale * (P / 1e3) ** spec['slope'][idx] * np.array(spec['shape'][idx]) * 1e4
         return f
+    xs = {}
     for i, g in enumerate(names):
-        OpacityCache().add_opacity(LayerOpacity(g, WN, mk(i)))
+        xs[g] = mk(i)
+        OpacityCache().add_opacity(LayerOpacity(g, WN, xs[g]))
     if spec['cia']:
         tab = np.array([[10.0 ** spec['ciamag'] * (1 + 0.1 * w) for w in range(len(WN))]])
         CIACache().add_cia(FixtureCIA('H2-He', WN, [1000.0], tab))
@@ -229,6 +231,7 @@ def build_random_model(rng, nl, scale=1.0, spec=None):
             sig *= np.linspace(2.0, 0.5, nl)[:, None]
         m.add_contribution(TableContribution('Table', sig))
     m.build()
+    m._verif_xs = xs
     return m, spec
 
 
@@ -238,8 +241,19 @@ def evaluate_run(m):
     r = (m.planet.fullRadius + np.asarray(m.altitude_boundaries, dtype=float)).tolist()
     dens = np.asarray(m.densityProfile, dtype=float)
     A = []
+    from taurex.contributions import AbsorptionContribution
+    Tl = np.asarray(m.temperatureProfile, dtype=float)
+    Pl = np.asarray(m.pressureProfile, dtype=float)
     for c in m.contribution_list:
-        sig = np.asarray(c.sigma_xsec, dtype=float)
+        if isinstance(c, AbsorptionContribution) and hasattr(m, '_verif_xs'):
+            # molecular absorption: the inputs are the fixture cross-sections and the mixing ratios,
+            # NOT the contribution's own buffer (so a wrong sum over species is seen here too)
+            sig = np.zeros((len(Pl), len(WN)))
+            for g, f in m._verif_xs.items():
+                mix = np.asarray(m.chemistry.get_gas_mix_profile(g), dtype=float)
+                sig += np.array([f(Tl[k], Pl[k]) for k in range(len(Pl))]) * mix[:, None]
+        else:
+            sig = np.asarray(c.sigma_xsec, dtype=float)
         if isinstance(c, CIAContribution):
             A.append((sig * (dens ** 2)[:, None]).tolist())
         else:
